@@ -10,16 +10,26 @@ MasksOf(ms) == LET n == Len(ms) IN
   IF n = 1 THEN <<NoneMask(n), AllMask(n)>>
   ELSE <<NoneMask(n), AllMask(n), IF Idx(ms[1].nodes[1]) % 2 = 0 THEN EvenMask(n) ELSE OddMask(n)>>
 
-CaseRec(gg, ms) == [g |-> gg, members |-> ms, masks |-> MasksOf(ms),
-                    rtype |-> IF Idx(ms[Len(ms)].nodes[1]) % 2 = 1 THEN "multipolygon" ELSE "boundary",
-                    norder |-> (Idx(ms[1].nodes[1]) + Len(ms)) % 3]
+\* grid: the renderer places the vertices on a coarse grid, so that rings share latitudes / longitudes exactly (a
+\* hole vertex level with a vertex of another outer).  Shapes with several outers and a hole - where the hole has to
+\* be assigned to one of several outers - are emitted under both placements, the other cases under one of them.
+MultiOuterWithHole(gg) == Cardinality(Outers(gg)) >= 2 /\ HasHoles(gg)
+
+CaseRec(gg, ms, grid) ==
+  [g |-> gg, members |-> ms, masks |-> MasksOf(ms),
+   rtype |-> IF Idx(ms[Len(ms)].nodes[1]) % 2 = 1 THEN "multipolygon" ELSE "boundary",
+   norder |-> (Idx(ms[1].nodes[1]) + Len(ms)) % 3, grid |-> grid]
 
 SimCase == LET n == Len(members) IN
   [g |-> g, members |-> members,
    masks |-> <<NoneMask(n), AllMask(n), RandomElement([1 .. n -> BOOLEAN])>>,
-   rtype |-> RandomElement({"multipolygon", "boundary"}), norder |-> RandomElement({0, 1, 2})]
+   rtype |-> RandomElement({"multipolygon", "boundary"}), norder |-> RandomElement({0, 1, 2}),
+   grid |-> IF MultiOuterWithHole(g) THEN RandomElement(1 .. 3) # 3 ELSE RandomElement(BOOLEAN)]
 
 Complete == cutr > Len(g) /\ pool = {}
-EmitFile == Complete => CSVWrite("%1$s", <<ToJson(CaseRec(g, members))>>, IOEnv.OUT)
-EmitSim  == Complete => CSVWrite("%1$s", <<ToJson(SimCase)>>, IOEnv.OUT)
+Write(c) == CSVWrite("%1$s", <<ToJson(c)>>, IOEnv.OUT)
+EmitFile == Complete =>
+   IF MultiOuterWithHole(g) THEN Write(CaseRec(g, members, FALSE)) /\ Write(CaseRec(g, members, TRUE))
+   ELSE Write(CaseRec(g, members, (Idx(members[Len(members)].nodes[2]) + Len(members[1].nodes)) % 4 = 0))
+EmitSim  == Complete => Write(SimCase)
 =============================================================================
